@@ -6,6 +6,10 @@
 #include "Source/Lib/Common/ASM_AVX2/EbPictureOperators_Intrinsic_AVX2.c"
 #include "Source/Lib/Common/ASM_SSE2/EbPictureOperators_Intrinsic_SSE2.c"
 #include "Source/Lib/Common/ASM_SSE2/EbAvcStyleMcp_Intrinsic_SSE2.c"
+#if KERNEL >= 6
+#include "Source/Lib/Common/ASM_SSE2/EbPackUnPack_Intrinsic_SSE2.c"
+#include "Source/Lib/Common/ASM_AVX2/EbPackUnPack_Intrinsic_AVX2.c"
+#endif
 #include "Source/Lib/Common/C_DEFAULT/EbPictureOperators_C.c"
 #include "c07_cref.inc" /* svt_residual_kernel{8,16}bit_c sliced verbatim from Codec/EbPictureOperators.c */
 #include "Source/Lib/Common/C_DEFAULT/EbPackUnPack_C.c"
@@ -43,13 +47,28 @@ typedef uint8_t TA; typedef uint8_t TB; typedef uint8_t TD;
 #define RUN_C(a, b, d) svt_picture_average_kernel_c(a, S0, b, S1, d, SD, W, H)
 #define RUN_S(a, b, d) svt_picture_average_kernel_sse2_intrin(a, S0, b, S1, d, SD, W, H)
 #define AMAX 255
+#elif KERNEL == 6 /* unpack + average, AVX2 (16-bit containers of 10-bit samples -> 8-bit average of the 8 MSBs) */
+typedef uint16_t TA; typedef uint16_t TB; typedef uint8_t TD;
+#define RUN_C(a, b, d) svt_unpack_avg_c(a, S0, b, S1, d, SD, W, H)
+#define RUN_S(a, b, d) svt_unpack_avg_avx2_intrin(a, S0, b, S1, d, SD, W, H)
+#define AMAX 1023
+#elif KERNEL == 7 /* unpack + average, SSE2 */
+typedef uint16_t TA; typedef uint16_t TB; typedef uint8_t TD;
+#define RUN_C(a, b, d) svt_unpack_avg_c(a, S0, b, S1, d, SD, W, H)
+#define RUN_S(a, b, d) svt_unpack_avg_sse2_intrin(a, S0, b, S1, d, SD, W, H)
+#define AMAX 1023
+#elif KERNEL == 8 /* 16-bit -> 8 MSB unpack */
+typedef uint16_t TA; typedef uint16_t TB; typedef uint8_t TD;
+#define RUN_C(a, b, d) svt_un_pack8_bit_data_c(a, S0, d, SD, W, H)
+#define RUN_S(a, b, d) svt_enc_un_pack8_bit_data_avx2_intrin(a, S0, d, SD, W, H)
+#define AMAX 1023
 #endif
 void harness(void) {
     TA *a = (TA *)malloc(sizeof(TA) * S0 * H); TB *b = (TB *)malloc(sizeof(TB) * S1 * H);
     TD *d1 = (TD *)malloc(sizeof(TD) * SD * H), *d2 = (TD *)malloc(sizeof(TD) * SD * H);
     V_ASSUME(a && b && d1 && d2);
-    for (uint32_t i = 0; i < S0 * H; i++) { a[i] = (TA)vin64(); }
-    for (uint32_t i = 0; i < S1 * H; i++) { b[i] = (TB)vin64(); }
+    for (uint32_t i = 0; i < S0 * H; i++) { a[i] = (TA)vin64(); V_ASSUME(a[i] <= AMAX); }
+    for (uint32_t i = 0; i < S1 * H; i++) { b[i] = (TB)vin64(); V_ASSUME(b[i] <= AMAX); }
     for (uint32_t i = 0; i < SD * H; i++) { d1[i] = (TD)0x5A5A; d2[i] = (TD)0x5A5A; }
     RUN_C(a, b, d1);
     RUN_S(a, b, d2);
